@@ -4,11 +4,17 @@ usage: baseline_compare.py [pytest paths…]   (no paths = whole suite)"""
 import json, subprocess, sys, tempfile, xml.etree.ElementTree as ET
 base = json.load(open("/root/.vp/BASELINE.json"))
 stable = set(base["stable_pass"])
-paths = sys.argv[1:]
+import os
+args = sys.argv[1:]
+REPO = "/repo"
+if args and args[0] == "--repo":
+    REPO = args[1]; args = args[2:]
+paths = args
 out = tempfile.mktemp(suffix=".xml")
 cmd = ["/venv/bin/python", "-m", "pytest", "-ra", "-q", "-p", "no:cacheprovider", "--timeout=900",
        "--continue-on-collection-errors", f"--junitxml={out}"] + paths
-subprocess.run(cmd, cwd="/repo", stdout=subprocess.DEVNULL, stderr=subprocess.DEVNULL)
+subprocess.run(cmd, cwd=REPO, stdout=subprocess.DEVNULL, stderr=subprocess.DEVNULL,
+               env=dict(os.environ, PYTHONPATH=REPO))
 passed = set()
 for tc in ET.parse(out).getroot().iter("testcase"):
     if not any(ch.tag in ("failure", "error", "skipped") for ch in tc):
